@@ -65,6 +65,9 @@ def gen_fvec(rng, F):
 HOSTILE = ["", " ", "a b", "x: y", "# not a comment", "'single'", '"double"', " lead", "trail ", "two\nlines",
            "null", "~", "true", "1e3", "- dash", "[a]", "{b}", "éè 中", "a\\b", "%YAML", "key=value", "&anchor", "*alias", "|", ">"]
 KEYS = ["a", "b", "title", "Date", "x1", "long_key-name", "k7", "K", "\u00e9t\u00e9"]
+# keys that need quoting in a property expression and in the saved YAML (reserved characters, leading
+# digit, leading / trailing space, backslash, UTF-8)
+HKEYS = ["cable.type", "a[0]", "{x}", "k=v", "#tag", "7up", " lead", "trail ", "back\\slash", "x y", "\u00e9.\u00e8", "[", "=", ".", "a.b.c"]
 NAMES = ["cal", "ab", "default", "A B", "x:y", "über", " lead", "#1", "'q'", "-", "[0]", "null", "~", "two\nlines", "n=1"]
 
 
@@ -76,7 +79,7 @@ def gen_props(rng, depth=0, hostile=True):
         return rng.choice(HOSTILE) if (hostile and rng.random() < 0.5) else "v%d" % rng.randint(0, 999)
     if k < 0.75:
         d = {}
-        for key in rng.sample(KEYS, rng.randint(0, 4)):
+        for key in rng.sample(KEYS + (HKEYS if hostile else []), rng.randint(0, 4)):
             d[key] = gen_props(rng, depth + 1, hostile)
         return d
     return [gen_props(rng, depth + 1, hostile) for _ in range(rng.randint(0, 3))]
@@ -292,7 +295,20 @@ class Scenario(object):
     pass
 
 
-def build_scenario(ctx, rng, idx, d, thorough):
+def history_plans(thorough):
+    """Systematic add / delete / replace histories: (number of calibrations, deleted positions,
+    position whose name is added again, then one more new name).  Every (deleted, replaced) pair."""
+    plans = []
+    for n in ((3, 4) if not thorough else (2, 3, 4, 5, 9)):
+        for dpos in range(n):
+            for rpos in range(n):
+                if rpos != dpos:
+                    plans.append((n, [dpos], rpos))
+    plans += [(4, [0, 2], 3), (4, [0, 1], 2), (5, [1, 3], 4), (4, [1, 2], 0), (9, [0, 8], 4), (9, [3], 8)]
+    return plans
+
+
+def build_scenario(ctx, rng, idx, d, thorough, plan=None):
     """Returns a Scenario with script lines, files to write and the expected python model."""
     sc = Scenario()
     sc.idx = idx
@@ -311,11 +327,16 @@ def build_scenario(ctx, rng, idx, d, thorough):
     # coverage: the first scenarios walk through every type x dims once
     grid = [(t, r, c) for t in L.TYPES for r in range(1, 4) for c in range(1, 4) if L.dims_ok(t, r, c)]
     k = rng.choice([0, 1, 1, 2, 3, 4]) if idx >= len(grid) else rng.choice([1, 2, 3])
+    if plan is not None:
+        k = plan[0]
     style = rng.choice(["hex", "dec"])
     cals = []
     names = rng.sample(NAMES, min(len(NAMES), k + 2))
     for i in range(k):
         nm = names[i]
+        if plan is not None:
+            cals.append(gen_cal(rng, nm, ideal=rng.random() < 0.5, maxdim=2, F=rng.choice([1, 2])))
+            continue
         if i > 0 and rng.random() < 0.2:
             nm = cals[rng.randrange(len(cals))]["name"]          # duplicate name: replaced while loading
         if i == 0 and idx < len(grid):
@@ -336,13 +357,31 @@ def build_scenario(ctx, rng, idx, d, thorough):
     sc.lines.append("dump 0")
     # history
     hist = rng.random()
+    if plan is not None:
+        hist = 2.0
+        n, dels, rpos = plan
+        for ci in dels:
+            sc.lines.append("delete 0 %d" % ci)
+            slots[ci] = None
+        # the same name again (different type / dimensions / z0 / terms): replaces in place, whatever holes
+        # lie below it; then a new name: takes the first hole
+        bc = [gen_cal(rng, "src0", ideal=rng.random() < 0.5, maxdim=3), gen_cal(rng, "src1", maxdim=2)]
+        sc.files[pb] = L.write_vnacal(bc, None, style="hex")
+        sc.lines.append("load 1 %s" % pb)
+        for i, nm in enumerate([cals[rpos]["name"], "fresh name"]):
+            sc.lines.append("xfer 1 %d 0 %s" % (i, hx(nm)))
+            v = loaded_view(bc[i])
+            v["name"] = nm
+            add_common(slots, v)
+        sc.lines.append("free 1")
+        sc.notes += ["delete", "replace@%d,holes%s" % (rpos, dels), "add"]
     if hist < 0.5 and any(s is not None for s in slots):
         live = [i for i, s in enumerate(slots) if s is not None]
         for ci in rng.sample(live, rng.randint(1, min(2, len(live)))):
             sc.lines.append("delete 0 %d" % ci)
             slots[ci] = None
             sc.notes.append("delete")
-    if hist > 0.3:
+    if 0.3 < hist <= 1.0:
         nb = rng.randint(1, 2)
         bc = []
         for i in range(nb):
@@ -367,8 +406,8 @@ def build_scenario(ctx, rng, idx, d, thorough):
         ci = rng.choice([-1] + [i for i, s in enumerate(slots) if s is not None])
         cur = gprops if ci == -1 else slots[ci]["props"]
         if cur is None or isinstance(cur, dict):
-            key, val = rng.choice(KEYS), "val %d" % rng.randint(0, 99)
-            sc.lines.append("pset 0 %d %s" % (ci, hx("%s=%s" % (key, val))))
+            key, val = rng.choice(KEYS + HKEYS), "val %d" % rng.randint(0, 99)
+            sc.lines.append("pset 0 %d %s" % (ci, hx("%s=%s" % (L.quote_key(key), val))))
             new = dict(cur or {})
             new[key] = val
             if ci == -1:
@@ -440,6 +479,9 @@ def run(ctx):
     n = 160 if not thorough else 1500
     fpd, dpd = defaults
     scs = [build_scenario(ctx, rng, i, d, thorough) for i in range(n)]
+    for plan in history_plans(thorough):
+        scs.append(build_scenario(ctx, rng, len(scs), d, thorough, plan=plan))
+    n = len(scs)
     for sc in scs:
         for p, txt in sc.files.items():
             with open(p, "w") as f:
